@@ -12,6 +12,7 @@ HOOKS = os.path.join(VERIF, 'hooks', 'cmd', 'ow-sim')
 INSERTS = [
     ('genSimulationTime, nodesInGeneration := runGeneration(', 'after', '\t\tverifTrace("ran", i)'),
     ('go func(g int) {', 'before', '\t\t\tverifTrace("spawn", i)'),
+    ('go func(g int) {', 'after', '\t\t\t\tverifTrace("start", g)'),
     ('prevG = <-writingDone', 'after', '\t\t\t\t\t\tverifTrace(fmt.Sprintf("recv:%d", g), prevG)'),
     ('if prevG == (g - 1) {', 'before', '\t\t\t\t\t\tverifTrace(fmt.Sprintf("purged:%d", g), prevG)'),
     ('writingDone <- prevG', 'after', '\t\t\t\t\t\tverifTrace(fmt.Sprintf("putback:%d", g), prevG)'),
